@@ -2065,6 +2065,12 @@ func (e *stEngine) sweep() {
 		{"netmap 'config'", raw("netmap", "config"), len(m.cfg[0])},
 		{"neofs 'config'", raw("neofs", "config"), len(m.cfg[1])},
 	} {
+		if c.got == 0 && c.model > 0 {
+			// the documented prefix holds nothing although the listers (layer 1,
+			// already judged) show what the model has: another layout is in use
+			r.Count("raw_layout_unrecognised." + strings.Fields(c.what)[0])
+			continue
+		}
 		if c.got != c.model {
 			rule := "C20/raw-count-mismatch"
 			if strings.HasPrefix(c.what, "estimations") && e.cleaned {
